@@ -298,7 +298,7 @@ def interpolate_bad_channels(
         weights[bad_channels] = 0
         weights[weights < 0.005] = 0
         weights = weights / gp.sum(weights)
-        imult = gp.where(weights > 0.005)[0]
+        imult = gp.where(weights > 0)[0]
         if imult.size == 0:
             data[i, :] = 0
             continue
